@@ -31,7 +31,7 @@ func (p *c15) ID() string { return "C15" }
 
 func (p *c15) Init(tier string, seed int64) {
 	p.tier, p.seed = tier, seed
-	p.zoo = append(append(gen.Scalars(), gen.Containers()...), gen.NilSafePointer())
+	p.zoo = append(gen.Scalars(), gen.Containers()...)
 	p.ints = []int64{0, 1, -1, 2, 3, 7, 10, 42, 100, 127, -128, 128, 255, 256, 999, 1000, 32767, -32768, 65535, 65536,
 		99999, 100000, 999999, 1000000, 1000001, 16777216, 16777217, 2147483647, -2147483648, 4294967295, 4294967296,
 		123456789, 1e9, 1e12, 1e15, 999999999999999, 1 << 53, -(1 << 53), (1 << 53) - 1,
@@ -223,9 +223,6 @@ func (p *c15) Run(i int) (res fw.Result) {
 		// wrapped as safe (1..3 levels) coerces exactly like the value inside
 		w := z.V
 		for lvl := 1; lvl <= 3; lvl++ {
-			if z.Label == gen.NilSafePointer().Label {
-				break // NewSafeValue asks the value for its types: not a coercion, and the application's method
-			}
 			w = stick.NewSafeValue(w, []string{"html", "js", "css"}[lvl-1])
 			ws, wf, wb := stick.CoerceString(w), stick.CoerceNumber(w), stick.CoerceBool(w)
 			res.Evals += 3
